@@ -125,6 +125,10 @@ impl<'a> Lexer<'a> {
             }
         }
 
+        if c.is_ascii_digit() && self.at_digit_leading_identifier(c) {
+            return self.identifier(start);
+        }
+
         let mut base = 10;
         if c == '0' {
             if self.s.eat_if('b') {
@@ -155,6 +159,27 @@ impl<'a> Lexer<'a> {
             2 => TokenKind::BinaryIntVal,
             10 | 16 => TokenKind::IntVal,
             _ => unreachable!(),
+        }
+    }
+
+    /// An identifier may begin with digits (`4foo`); `0x1f` and `0b01` stay numbers.
+    fn at_digit_leading_identifier(&self, first: char) -> bool {
+        let rest = self.s.after();
+        let digits = rest.len() - rest.trim_start_matches(|c: char| c.is_ascii_digit()).len();
+        let mut chars = rest[digits..].chars();
+        match chars.next() {
+            Some(c) if is_identifier_start(c) => {
+                let radix_digit = chars.next();
+                let is_radix_prefix = first == '0'
+                    && digits == 0
+                    && match c {
+                        'x' => radix_digit.is_some_and(|d| d.is_ascii_hexdigit()),
+                        'b' => matches!(radix_digit, Some('0' | '1')),
+                        _ => false,
+                    };
+                !is_radix_prefix
+            }
+            _ => false,
         }
     }
 
